@@ -455,16 +455,35 @@ def exc_canon(e):
     return exc_name(e)
 
 
+class RealTimeout(BaseException):
+    """the real code did not return within REAL_TIMEOUT seconds (reported as its own outcome, never equal to Lean's)"""
+
+
+REAL_TIMEOUT = 10.0
+
+
+def _alarm(_sig, _frm):
+    raise RealTimeout()
+
+
 def run_real(f, pv, bv, sp=None):
+    import signal
     if sp is not None:
         REC_FIELDS.clear()
         REC_FIELDS.update(sp.rec_fields)
+    old = signal.signal(signal.SIGALRM, _alarm)
+    signal.setitimer(signal.ITIMER_REAL, REAL_TIMEOUT)
     try:
         return "ok " + canon(f(pv, bv))
+    except RealTimeout:
+        return "exc <no result within %gs>" % REAL_TIMEOUT
     except RecursionError:
         return "exc RecursionError"
     except Exception as e:     # noqa: BLE001  the class is what is compared
         return "exc " + exc_canon(e)
+    finally:
+        signal.setitimer(signal.ITIMER_REAL, 0)
+        signal.signal(signal.SIGALRM, old)
 
 
 # ----------------------------------------------------------------------------- input generation
@@ -529,10 +548,14 @@ def inputs_for(sp, rng, n):
     btys = [t for (_, _, t) in sp.binds]
     seen, out = set(), []
 
+    accept = getattr(GROUP_MODULE[sp.group], "accept", None)     # optional veto of the spec file: accept(sp, pv, bv)
+
     def add(pv, bv):
         for (name, _t), v in list(zip(sp.params, pv)) + [((pn, t), v) for (_s, pn, t), v in zip(sp.binds, bv)]:
             if name in sp.nonneg and isinstance(v, int) and v < 0:
                 return          # declared precondition of the cut
+        if accept is not None and not accept(sp, pv, bv):
+            return              # precondition declared by the spec file (must be said in the spec's note)
         key = repr((pv, bv))
         if key not in seen:
             seen.add(key)
